@@ -635,3 +635,11 @@ __CPROVER_assigns(*d_raw__r)
 __CPROVER_ensures(!__CPROVER_return_value || (((*d_raw__r >> 52) & 0x7FF) >= 1 && ((*d_raw__r >> 52) & 0x7FF) <= 0x7FE))
 __CPROVER_ensures(!__CPROVER_return_value || (*d_raw__r >> 63) == (sgn == -1))
 """)
+
+UNITS["Decimal"] = dict(file=AN, anchor=r"typedef struct Decimal \{", kind="span", end=r"\} Decimal;")
+UNITS["DECIMAL_MAX_DNUM"] = dict(file=AN, anchor=r"#define DECIMAL_MAX_DNUM 800", kind="macro")
+UNITS["ShouldRoundup"] = dict(file=AN, anchor=r"static sonic_force_inline int ShouldRoundup\(")
+
+# Quote's tail source selection (page guard / copy to the stack buffer) as a verbatim fragment: from the buffer declaration to the
+# tail loop header (exclusive)
+UNITS["Quote.tailguard"] = dict(file=QI, anchor=r"char tmp_src\[VEC_LEN \* 2\];", kind="span", end=r"src_r = tmp_src;\n    \}", rules=[("ns-std2", r"\bstd::memcpy\(", "memcpy(")])
